@@ -130,7 +130,7 @@ Proof. exact recv_payload. Qed.
 Print Assumptions C17_payloads_in_order_unchanged.
 
 Theorem C17_other_operations_keep_stream : forall f hr c o w r w',
-  match o with ORecvText | ORecvData | ORecvMedia | OClose _ _ => False | _ => True end ->
+  match o with ORecvText | ORecvData | ORecvMedia | ORecvCancelled | OClose _ _ => False | _ => True end ->
   run_op f hr c o w = (r, w') -> stream w' = stream w.
 Proof. exact stream_frame. Qed.
 Print Assumptions C17_other_operations_keep_stream.
@@ -181,6 +181,28 @@ Theorem C17_receiver_bounds_from_C18 : forall cp sent ls,
   /\ (M18.flag s = true -> M18.outst s = 0%nat).
 Proof. exact projected_bounds. Qed.
 Print Assumptions C17_receiver_bounds_from_C18.
+
+(* A receive that is cancelled while it is parked (asyncio.wait_for timeout) consumes nothing
+   and changes nothing: the next receive gets the next event (C18: cancellation is lossless,
+   the waiter is reset).  ORecvCancelled is an operation of every script, so session_legal, the
+   misuse table and the other theorems cover sessions with cancelled receives. *)
+Theorem C17_cancelled_receive_is_noop : forall f c w r w',
+  op_recv_cancelled f c w = (r, w') -> r = Ret VCancelled -> w' = w.
+Proof. exact cancelled_receive_is_noop. Qed.
+Print Assumptions C17_cancelled_receive_is_noop.
+
+(* A WebSocketDisconnected raised by the responder itself (ORaise (RDisc code), e.g. a relay
+   whose OTHER socket went away) while its own client is still connected, before or after
+   accept: the wrapper still closes the socket, with the error close code.  (session_legal
+   covers every script containing such raises.) *)
+Theorem C17_spontaneous_disconnect_still_closes : forall hr c cl co (accepted : bool),
+  let sc := (if accepted then [(OAccept SubNone HNone, false)] else []) ++ [(ORaise (RDisc co), false)] in
+  let '(rs, e, w) := session true hr c true [] (Routed sc) cl [] in
+  e = Returned /\ st w = Closed /\
+  exists (code : Z) (r : bool), last (closes w) (EText 0%N KExact) = EClose code r
+                 /\ code = (if valid_code (err_code c) then err_code c else 3011).
+Proof. exact spontaneous_disconnect_closes. Qed.
+Print Assumptions C17_spontaneous_disconnect_still_closes.
 
 (* The code as found (fixed = false): the server raises on the final websocket.close and a
    second websocket.close is sent; replayed on the implementation this was the finding
